@@ -306,13 +306,20 @@ restate it with the tests written out), so the theorems above are about the test
 now; a one-token change in any of them changes `Gen/Mapset.lean` and this theorem stops compiling. -/
 theorem C18_current :
     MdsVerif.Gen.Mapset.recognised = true ∧
-    (∀ ls lt, MdsVerif.Gen.Mapset.intersectsSwaps ls lt = decide (ls > lt)) ∧
-    (∀ ls, MdsVerif.Gen.Mapset.hasAllEmpty ls = decide (ls = 0)) ∧
-    (∀ lts, MdsVerif.Gen.Mapset.hasAllEmptyResult lts = decide (lts = 0)) ∧
-    (∀ ls, MdsVerif.Gen.Mapset.hasAnyEmpty ls = decide (ls = 0)) ∧
-    (∀ ls, MdsVerif.Gen.Mapset.isSubsetEmpty ls = decide (ls = 0)) ∧
-    (∀ ls lt, MdsVerif.Gen.Mapset.isSubsetTooBig ls lt = decide (ls > lt)) ∧
-    (∀ ls lt, MdsVerif.Gen.Mapset.equalsDiffer ls lt = decide (ls ≠ lt)) :=
-  ⟨rfl, fun _ _ => rfl, fun _ => rfl, fun _ => rfl, fun _ => rfl, fun _ => rfl, fun _ _ => rfl, fun _ _ => rfl⟩
+    (∀ (ls : Nat) (lt : Nat), MdsVerif.Gen.Mapset.intersectsSwaps ls lt = decide (ls > lt)) ∧
+    (∀ (ls : Nat), MdsVerif.Gen.Mapset.hasAllEmpty ls = decide (ls = 0)) ∧
+    (∀ (lts : Nat), MdsVerif.Gen.Mapset.hasAllEmptyResult lts = decide (lts = 0)) ∧
+    (∀ (ls : Nat), MdsVerif.Gen.Mapset.hasAnyEmpty ls = decide (ls = 0)) ∧
+    (∀ (ls : Nat), MdsVerif.Gen.Mapset.isSubsetEmpty ls = decide (ls = 0)) ∧
+    (∀ (ls : Nat) (lt : Nat), MdsVerif.Gen.Mapset.isSubsetTooBig ls lt = decide (ls > lt)) ∧
+    (∀ (ls : Nat) (lt : Nat), MdsVerif.Gen.Mapset.equalsDiffer ls lt = decide (ls ≠ lt)) :=
+  ⟨rfl,
+   by gen_fact MdsVerif.Gen.Mapset.intersectsSwaps,
+   by gen_fact MdsVerif.Gen.Mapset.hasAllEmpty,
+   by gen_fact MdsVerif.Gen.Mapset.hasAllEmptyResult,
+   by gen_fact MdsVerif.Gen.Mapset.hasAnyEmpty,
+   by gen_fact MdsVerif.Gen.Mapset.isSubsetEmpty,
+   by gen_fact MdsVerif.Gen.Mapset.isSubsetTooBig,
+   by gen_fact MdsVerif.Gen.Mapset.equalsDiffer⟩
 
 end MdsVerif.Props.C18
